@@ -407,7 +407,16 @@ def timeout_probe(ctx):
             bound = (n if size < 0 else size) + 2
             ctx.case(("timeout", body, n, block, size))
             ctx.count("timeout probe: " + outcome)
-            if len(stream.log) > bound or outcome != "returned":
+            if outcome == "more than 100000 reads":
+                # the deadline (50 ticks of the controlled clock) passed long
+                # ago: the timeout itself no longer fires -- not the known
+                # busy-wait, which ends with TimeoutError
+                ctx.violation("timeout-never-fires", {
+                    "body": body.decode("latin-1"), "n": n, "block": block,
+                    "timeout": 0.05, "clock": "1 ms per time() call",
+                    "call": "readline(%d)" % size,
+                    "underlying_reads_in_call": len(stream.log)})
+            elif len(stream.log) > bound or outcome != "returned":
                 ctx.violation("timeout-busy-wait-on-early-eof", {
                     "body": body.decode("latin-1"), "n": n, "block": block,
                     "timeout": 0.05, "clock": "1 ms per time() call",
